@@ -118,6 +118,13 @@ Theorem c05_key_filters : forall keys x,
 Proof. intros keys x. split; [apply allow_keys_filter_spec | reflexivity]. Qed.
 Print Assumptions c05_key_filters.
 
+(** The default encoding of a set holding only string values decodes (split on unescaped ',' and '=',
+    drop escapes) to exactly the set's bindings: escaping makes it lossless, hence injective, for every
+    set of string attributes whatever bytes keys and values contain. *)
+Theorem c05_encode_strings_lossless : forall emit s, EncodingSpec s (encode emit s).
+Proof. exact encode_lossless. Qed.
+Print Assumptions c05_encode_strings_lossless.
+
 (** The boolean checkers applied to the implementation's observations imply the Prop readings. *)
 Theorem c05_checkers_sound :
   (forall input keep after set removed,
@@ -125,10 +132,11 @@ Theorem c05_checkers_sound :
   (forall i1 i2 eq, equals_ok i1 i2 eq = true -> EqualsSpec i1 i2 eq) /\
   (forall keep orig kept dropped,
      filter_ok keep orig kept dropped = true -> FilterSpec keep orig kept dropped) /\
-  (forall a b merged, merge_ok a b merged = true -> MergeSpec a b merged).
+  (forall a b merged, merge_ok a b merged = true -> MergeSpec a b merged) /\
+  (forall s enc, encoding_ok s enc = true -> EncodingSpec s enc).
 Proof.
   split; [exact newset_ok_sound|]. split; [exact equals_ok_sound|].
-  split; [exact filter_ok_sound | exact merge_ok_sound].
+  split; [exact filter_ok_sound|]. split; [exact merge_ok_sound | exact encoding_ok_sound].
 Qed.
 Print Assumptions c05_checkers_sound.
 
@@ -152,6 +160,11 @@ Example ex_merge :
   [(str "", VBool true); (str "a", VFloat NAN_BITS); (str "b", VInts [1; 2]); (str "bb", VInt 8); (str "c", VInvalid)].
 Proof. vm_compute. reflexivity. Qed.
 Example ex_lookup : set_value (new_set ex_in) (str "b") = Some (VInts [1; 2]) /\ set_value (new_set ex_in) (str "ab") = None.
+Proof. vm_compute. auto. Qed.
+Example ex_encode :
+  let s := [(str "a,b", VStr (str "x=y\")); (str "k", VStr [])] in
+  encode (fun _ => []) s = str "a\,b=x\=y\\,k=" /\
+  decode_strings (encode (fun _ => []) s) = Some [(str "a,b", str "x=y\"); (str "k", [])].
 Proof. vm_compute. auto. Qed.
 Example ex_regular_guard_satisfiable :
   kvs_regular [(str "f", VFloats [0; 4607182418800017408]); (str "g", VFloat NEG_ZERO_BITS)] = true.
